@@ -592,6 +592,8 @@ class ObjectMethod(DeserializationMethod):
     aliaser: Aliaser
     missing: str
     unexpected: str
+    # method of the additional keys of a TypedDict (Any: copies unless no_copy)
+    extra_method: DeserializationMethod
     aggregate_fields: bool = field(init=False)
 
     def __post_init__(self):
@@ -697,7 +699,7 @@ class ObjectMethod(DeserializationMethod):
                             )
                 elif self.typed_dict:
                     for key in remain:
-                        values[key] = data[key]
+                        values[key] = self.extra_method.deserialize(data[key])
         elif len(data) != fields_count:
             if not self.additional_properties:
                 for key in data.keys() - self.all_aliases:
@@ -707,7 +709,7 @@ class ObjectMethod(DeserializationMethod):
                         )
             elif self.typed_dict:
                 for key in data.keys() - self.all_aliases:
-                    values[key] = data[key]
+                    values[key] = self.extra_method.deserialize(data[key])
         if self.validators:
             init = None
             # field_errors is keyed by aliases, validators dependencies are field names
